@@ -120,7 +120,43 @@ def classify(e, which):
     return sorted(set(kinds)) or ["other"]
 
 
+def control_flow_pairs(ctx):
+    """(old, new) files whose functions differ by CONTROL FLOW only: bodies of if/else arms, leaves and
+    subtrees of decision trees, multi-value switch cases exchanged (MiniGo templates, emitted directly).
+    These are the pairs on which the zipper's control-flow consistency pass unpairs instructions."""
+    import itertools
+    import minigo
+    import c04
+    plain = {"commute": False, "flip": False, "badswap": False}
+    E = ["a+b", "a-b", "b", "7"]
+    old, new = [], []
+
+    def add(p, q):
+        n = "X%d" % len(old)
+        old.append((p, n, 0))
+        new.append((q, n, len(old) % 3))
+    for t, e in itertools.permutations(E, 2):
+        for p in ({"tpl": "branch", "cmp": ">=", "lhs": "a", "rhs": "b", "thenE": t, "elseE": e},
+                  {"tpl": "orand", "cmp": ">", "thenE": t, "elseE": e},
+                  {"tpl": "switch2", "small": 3, "thenE": t, "elseE": e},
+                  {"tpl": "sharedcmp", "cmp": "<", "rhs": "k", "thenE": t, "elseE": e},
+                  {"tpl": "fltbranch", "cmp": ">", "thenE": t, "elseE": e}):
+            p = dict(p, pres=plain)
+            add(p, dict(p, thenE=e, elseE=t))
+    L = ["a+b", "b", "7"]
+    for l1, l2, l3, l4 in itertools.product(L, repeat=4):
+        p = {"tpl": "dectree", "c2": "b>0", "c3": "a>b", "l1": l1, "l2": l2, "l3": l3, "l4": l4, "pres": plain}
+        for q in (dict(p, l1=l2, l2=l1), dict(p, l2=l3, l3=l2), dict(p, c2=p["c3"], c3=p["c2"], l1=l3, l3=l1, l2=l4, l4=l2)):
+            if q != p and len(old) < 220:
+                add(p, q)
+    base = os.path.join(ctx.scratch, "cfpairs")
+    po = c04.write_pkg(os.path.join(base, "o"), minigo.render_file("pk", old))
+    pn = c04.write_pkg(os.path.join(base, "n"), minigo.render_file("pk", new))
+    return [{"old": po, "new": pn}]
+
+
 def zipper_clause(ctx, plan):
+    plan = list(plan) + control_flow_pairs(ctx)
     pp = os.path.join(ctx.scratch, "zip.plan.json")
     out = os.path.join(ctx.scratch, "zip.ndjson")
     with open(pp, "w") as fh:
